@@ -123,7 +123,9 @@ class Prop(PropBase):
             v = P.view(np.ndarray)
             out = {"pair": [hx(float(v["int"])), hx(float(v["frac"]))]}
             try:
-                s = P.to_string() if case["p"] is None else P.to_string(precision=case["p"])
+                # the unit left out, or named explicitly in one of its equal spellings (the object, the string, a product)
+                uk = [{}, {}, {"unit": self.u.cycle}, {"unit": "cycle"}, {"unit": (1 * self.u.cycle / self.u.s * self.u.s).unit}][int(unhx(case["f"]).hex()[-2:], 16) % 5]
+                s = P.to_string(**uk) if case["p"] is None else P.to_string(precision=case["p"], **uk)
                 out["s"] = str(s)
                 if case["p"] is not None and not case["imag"]:
                     out["fmt"] = format(P, f".{case['p']}f")
